@@ -216,11 +216,21 @@ class ManagedFilter {
         std::abs(std::floor((outputTime - _state.currentTime) / max_dt)));
 
     for (size_t count = 0; count < expected_iterations; ++count) {
-      state = _impl.process_model(max_dt, state, _calibration);
+      if constexpr (!std::is_same_v<typename Impl::Tag::CalibrationT,
+                                    std::false_type>) {
+        state = _impl.process_model(max_dt, state, _calibration);
+      } else {
+        state = _impl.process_model(max_dt, state);
+      }
     }
     double iterTime = _state.currentTime + max_dt * expected_iterations;
     if (std::abs(outputTime - iterTime) >= 1e-9) {
-      state = _impl.process_model(outputTime - iterTime, state, _calibration);
+      if constexpr (!std::is_same_v<typename Impl::Tag::CalibrationT,
+                                    std::false_type>) {
+        state = _impl.process_model(outputTime - iterTime, state, _calibration);
+      } else {
+        state = _impl.process_model(outputTime - iterTime, state);
+      }
     }
 
     return {.currentTime = outputTime, .state = state};
